@@ -346,6 +346,12 @@ func (w *world) msgNvUndelegate(a, v int, amt int64) sdk.Msg {
 		Recipient: w.h.Accts[a].Addr.String()}
 }
 
+// msgNvUndelegateTo names an explicit recipient of the unbonded coins
+func (w *world) msgNvUndelegateTo(a, v int, amt int64, recipient string) sdk.Msg {
+	return &sctypes.MsgNonVotingUndelegate{Sender: w.h.Accts[a].Addr.String(), ValidatorAddress: w.vals[v].Oper, Amount: sdk.NewInt64Coin(fee, amt),
+		Recipient: recipient}
+}
+
 func (w *world) msgDelegate(a, v int, amt int64) sdk.Msg {
 	return &stakingtypes.MsgDelegate{DelegatorAddress: w.h.Accts[a].Addr.String(), ValidatorAddress: w.vals[v].Oper, Amount: sdk.NewInt64Coin(bond, amt)}
 }
